@@ -5,13 +5,14 @@ runs the quick check(s) of the property it targets, records whether the check fi
 Never leaves a patch applied (git -C /repo checkout -- .)."""
 import argparse, json, os, subprocess, sys, time
 VERIF = os.path.dirname(os.path.dirname(os.path.abspath(__file__)))
+REPO = os.environ.get("SELFTEST_REPO", "/repo")  # a sandbox copy may be used for development loops
 
 def sh(cmd, **kw):
     return subprocess.run(cmd, stdout=subprocess.PIPE, stderr=subprocess.STDOUT, text=True, **kw)
 
 def clean_repo():
-    sh(["git", "-C", "/repo", "checkout", "--", "."])
-    st = sh(["git", "-C", "/repo", "status", "--porcelain"]).stdout.strip()
+    sh(["git", "-C", REPO, "checkout", "--", "."])
+    st = sh(["git", "-C", REPO, "status", "--porcelain"]).stdout.strip()
     if st:
         print("WARNING: /repo not clean:", st)
 
@@ -46,7 +47,7 @@ def main():
             continue
         if a.props:
             props = a.props.split(",")
-        r = sh(["git", "-C", "/repo", "apply", patch])
+        r = sh(["git", "-C", REPO, "apply", patch])
         if r.returncode != 0:
             print(name, "PATCH DOES NOT APPLY", r.stdout[-300:])
             rows.append({"name": name, "applies": False})
